@@ -153,6 +153,46 @@ def run(chk, w):
             chk.violation("C13-NUL", f.name, slot, inst.loc(), "%s of %s while it is NULL on the path with %s" % (what, slot, ", ".join("%s=%s" % kv for kv in dec.items())))
     chk.floor("functions_with_records", nn, 15)
 
+    # ---- SIB (shared with C16): "can be started again" through either start function
+    from . import c16 as _c16
+    _c16.start_sibling_rule(chk, P, "C13-SIB")
+
+    # ---- FMT: text from the configuration files never becomes a format string
+    chk.rule("C13-FMT", "every printf-style call passes a string literal as its format (or forwards the wrapper's own format parameter): strings taken from the "
+                        "configuration files are only ever arguments, so a '%' in an id or value cannot be interpreted as a conversion")
+    FMT = {"printf": 0, "fprintf": 1, "sprintf": 1, "snprintf": 2, "syslog": 1, "vsyslog": 1, "vsnprintf": 2, "vsprintf": 1, "vprintf": 0, "vfprintf": 1,
+           "g_string_printf": 1, "g_string_append_printf": 1, "dprintf": 1, "g_strdup_printf": 0, "g_printerr": 0, "g_print": 0}
+    # the library's own wrappers: a variadic repo function whose parameter reaches the format position of one of the above
+    wrappers = {}
+    for f in P.repo_functions():
+        if not f.blocks or not f.d.get("vararg"):
+            continue
+        for c in f.calls():
+            if c.callee in FMT and FMT[c.callee] < len(c.args):
+                src = rules.load_source(f, c.args[FMT[c.callee]])
+                k = f.param_index_of_alloca(f.insts[src[1]]) if src and src[0] == "alloca" else None
+                if k is not None:
+                    wrappers[f.name] = k
+    nf = 0
+    for f in P.repo_functions():
+        for c in f.calls():
+            pos = FMT.get(c.callee, wrappers.get(c.callee))
+            if pos is None or pos >= len(c.args):
+                continue
+            nf += 1
+            a = c.args[pos]
+            if a.get("k") == "global" and "str" in a:
+                chk.ok("C13-FMT", 1, None)
+                continue
+            src = rules.load_source(f, a)
+            k = f.param_index_of_alloca(f.insts[src[1]]) if src and src[0] == "alloca" else None
+            if k is not None and wrappers.get(f.name) == k:
+                chk.ok("C13-FMT", 1, {"wrapper": f.name, "forwards_its_format_parameter": True})
+                continue
+            chk.violation("C13-FMT", f.name, "%s:format" % c.callee, c.loc(), "%s is called with a format that is not a string literal: text built at run time (configuration ids and values are "
+                          "echoed in diagnostics) is interpreted as conversions; '%%s' / '%%n' in a configuration file crash the start" % c.callee)
+    chk.floor("format_calls", nf, 150)
+
     # ---- DBLFREE: a record passed by value to a free helper must not have its fields freed again by the caller
     # ---- REL: files and YAML parsers opened while reading the configuration are released on every path
     from .. import resources
